@@ -1535,8 +1535,14 @@ _SCOPE_END = _Sentinel("SCOPE_END")
 
 def assume(t, cond, truth):
     """Simplify a term under the assumption that boolean term `cond` has the given truth value."""
+    if isinstance(cond, tuple) and cond and cond[0] == "not":
+        return assume(t, cond[1], not truth)
+    if isinstance(cond, tuple) and cond and cond[0] == "cmp" and cond[1] == "!=":
+        return assume(t, ("cmp", "==") + tuple(cond[2:]), not truth)      # a != b is exactly !(a == b), NaN included
     if t == cond:
         return truth
+    if isinstance(t, tuple) and t and t[0] == "cmp" and t[1] == "!=" and ("cmp", "==") + tuple(t[2:]) == cond:
+        return not truth
     if isinstance(t, tuple) and t:
         if t[0] == "g":
             c = assume(t[1], cond, truth)
